@@ -1891,6 +1891,9 @@ struct ReportDataResponder<'a, 'b, 'c, const NE: usize, C> {
     invoker: HandlerInvoker<'b, 'c, C>,
     event_reader: EventReader,
     events: &'a Events<NE>,
+    /// How much of the space reserved at the end of the message being built
+    /// (see `LONG_READS_TLV_RESERVE_SIZE`) is still set aside
+    reserved: usize,
 }
 
 impl<'a, 'b, 'c, const NE: usize, C> ReportDataResponder<'a, 'b, 'c, NE, C>
@@ -1915,6 +1918,7 @@ where
             invoker,
             event_reader,
             events,
+            reserved: 0,
         }
     }
 
@@ -2025,6 +2029,7 @@ where
                 }
             }
 
+            self.unreserve(wb, 1)?;
             wb.end_container()?;
         }
 
@@ -2043,6 +2048,7 @@ where
         let accessor = self.invoker.exchange().accessor(&metadata)?;
 
         if let Some(event_reqs) = self.req.event_requests()? {
+            self.unreserve(wb, 2)?;
             wb.start_array(&TLVTag::Context(ReportDataRespTag::EventReports as _))?;
 
             // Validate concrete event paths against node metadata
@@ -2129,6 +2135,7 @@ where
                 }
             }
 
+            self.unreserve(wb, 1)?;
             wb.end_container()?;
         }
 
@@ -2277,10 +2284,25 @@ where
         }
     }
 
+    /// Let the `len` bytes of TLVs that close or open a reports array be written to
+    /// the space reserved at the end of the message, so that they always fit - even
+    /// when the reports written so far have filled the message to the brim.
+    fn unreserve(&mut self, wb: &mut WriteBuf<'_>, len: usize) -> Result<(), Error> {
+        if len > self.reserved {
+            return Err(ErrorCode::NoSpace.into());
+        }
+
+        wb.expand(len)?;
+        self.reserved -= len;
+
+        Ok(())
+    }
+
     /// Start a reply by initializing the `WriteBuf` and writing the initial TLVs.
-    fn start_reply(&self, wb: &mut WriteBuf<'_>) -> Result<(), Error> {
+    fn start_reply(&mut self, wb: &mut WriteBuf<'_>) -> Result<(), Error> {
         wb.reset();
         wb.shrink(Self::LONG_READS_TLV_RESERVE_SIZE)?;
+        self.reserved = Self::LONG_READS_TLV_RESERVE_SIZE;
 
         wb.start_struct(&TLVTag::Anonymous)?;
 
@@ -2302,12 +2324,13 @@ where
 
     /// End a reply by writing the closing TLVs and potentially indicating that there are more chunks to send.
     fn end_reply(
-        &self,
+        &mut self,
         state: ReportDataChunkState,
         suppress_resp: bool,
         wb: &mut WriteBuf<'_>,
     ) -> Result<(), Error> {
-        wb.expand(Self::LONG_READS_TLV_RESERVE_SIZE)?;
+        wb.expand(self.reserved)?;
+        self.reserved = 0;
 
         match state {
             ReportDataChunkState::ChunkingAttributes | ReportDataChunkState::ChunkingEvents => {
